@@ -100,8 +100,9 @@ def sgDefaultJson (r : SRec) : Json :=
   match r.kind with
   | .leaf _ (some s) => eScalarJson s
   | .leaf _ none => Json.null
-  | .sub (some k) _ _ => Json.mkObj [("t", "str"), ("v", jstr k)]
-  | .sub none _ _ => Json.null
+  | .sub _ true _ => Json.mkObj [("t", "forced-instance")]   -- `set_default(getattr(instance, name))`
+  | .sub (some k) false _ => Json.mkObj [("t", "str"), ("v", jstr k)]
+  | .sub none false _ => Json.null
 
 /-- op `sg.rounds`: same input ↦ what `_resolve_subgroups` returns: the resolved keys and, for every
     field wrapper of the final wrapper tree in `_flatten_wrappers` order, its destination, the set of
